@@ -194,7 +194,7 @@ def fp_equal(a, b, path=""):
     return bool(ok), ("" if ok else path + ":%r != %r" % (a, b))
 
 
-HELPER_ATTRS = {"inverse_indices", "fill_value_mask"}
+HELPER_ATTRS = {"inverse_indices", "fill_value_mask", "latitude_intervalsIndex", "latitude_intervals_name_map"}
 
 
 def _fp_dataarray(da):
